@@ -19,7 +19,16 @@
      mean tolerance (n + 2) * 2^-24 of the mean magnitude (any summation order in binary32);
    * CaseColF / CaseColZ: collapse_plateaus called (again) on a plateau array whose
      CURRENT content (after in-place updates) is [bins]: same comparison of the edges,
-     the interval and the mean (call histories). *)
+     the interval and the mean (call histories);
+   * ObsAtt: series that carry ATTACHMENTS (variances of the data, a mask, a further
+     coordinate along the series).  Every returned bin must hold, for each of its points,
+     the attachments of that input point unchanged: the observed attachments of the bins are
+     compared with [plateau_bins] of the SAME flags applied to the list of input attachments
+     (Verif.C19.ProofsAtt.attachments_travel: that is the projection of the bins of the
+     points taken together with their attachments).  collapse_plateaus = scipp's bins.mean:
+     the mean over the points that are NOT masked (NaN when all are masked), its variance
+     sum(var) / n^2 over the same points (compared to 4 x the mean tolerance, relative),
+     variances present iff the input has them; the interval still holds ALL points. *)
 From Coq Require Import List ZArith QArith Qabs String Bool PrimFloat.
 From Verif.Sem Require Import Corr.
 From Verif.C19 Require Import Carrier Model.
@@ -28,9 +37,45 @@ Open Scope string_scope.
 
 Inductive pobs (Cd : Type) :=
 | ObsErr (cls : string)
-| ObsBins (bins : list (list (Cd * float))) (collapsed : list (float * Cd * Cd)).
+| ObsBins (bins : list (list (Cd * float))) (collapsed : list (float * Cd * Cd))
+| ObsAtt (bins : list (list (Cd * float))) (collapsed : list (float * Cd * Cd))
+         (att_in : list (float * bool * bool * list Z))                 (* per input point *)
+         (att_bins : list (list (float * bool * bool * list Z)))        (* per returned bin, per point *)
+         (col_var : list (bool * float)).                               (* per collapsed plateau: has variance, variance *)
 Arguments ObsErr {Cd}.
 Arguments ObsBins {Cd}.
+Arguments ObsAtt {Cd}.
+
+(* what travels with a point besides (coordinate, value):
+   (variance (0 when absent), has variance, masked, [has mask; has further coordinate; its value]) *)
+Definition att := (float * bool * bool * list Z)%type.
+Definition att_var (a : att) : float := fst (fst (fst a)).
+Definition att_hasvar (a : att) : bool := snd (fst (fst a)).
+Definition att_masked (a : att) : bool := snd (fst a).
+Definition att_rest (a : att) : list Z := snd a.
+Fixpoint zlist_eqb (a b : list Z) : bool :=
+  match a, b with
+  | [], [] => true
+  | x :: a', y :: b' => Z.eqb x y && zlist_eqb a' b'
+  | _, _ => false
+  end.
+Definition att_same (a b : att) : bool :=
+  f_same (att_var a) (att_var b) && Bool.eqb (att_hasvar a) (att_hasvar b)
+  && Bool.eqb (att_masked a) (att_masked b) && zlist_eqb (att_rest a) (att_rest b).
+Fixpoint same_att_bin (a b : list att) : bool :=
+  match a, b with
+  | [], [] => true
+  | x :: a', y :: b' => att_same x y && same_att_bin a' b'
+  | _, _ => false
+  end.
+Fixpoint same_att_bins (a b : list (list att)) : string :=
+  match a, b with
+  | [], [] => ""
+  | x :: a', y :: b' => if same_att_bin x y then same_att_bins a' b' else "attachments-changed"
+  | _, _ => "attachment-bin-count"
+  end.
+Definition f_is_nan (x : float) : bool :=
+  match PrimFloat.classify x with FloatClass.NaN => true | _ => false end.
 
 Inductive case :=
 | CaseF (xs ys : list float) (atol : float) (min_n : Z) (qsame : bool) (o : pobs float)
@@ -83,6 +128,16 @@ Definition mean_ok (mtol : nat -> Q) (vals : list float) (m : float) : bool :=
   | Some mq => let '(e, mag) := qmean vals in Qle_bool (Qabs (mq - e)) (mtol (List.length vals) * mag)
   end.
 
+(* variance of the mean of n values: sum of the variances / n^2 *)
+Definition var_ok (mtol : nat -> Q) (vars : list float) (v : float) : bool :=
+  match f2q v with
+  | None => false
+  | Some vq =>
+      let n := inject_Z (Z.of_nat (List.length vars)) in
+      let e := fold_left (fun a x => Qred (a + f2q0 x)) vars 0 / (n * n) in
+      Qle_bool (Qabs (vq - e)) (4 * mtol (List.length vars) * Qabs e)
+  end.
+
 Definition eps64 : Q := 1 # 1000000000.
 Definition eps32 : Q := 1 # 20000.
 (* guard on the model's own bins, exact rationals: (must raise, must return) *)
@@ -118,6 +173,37 @@ Definition collapse_cmp (mbins : list (list (C o * V o))) (coll : list (float * 
      | _, _ => "collapse-count"
      end) mbins coll.
 
+Definition collapse_cmp_att (mbins : list (list (C o * V o))) (abins : list (list att))
+           (coll : list (float * C o * C o)) (cvar : list (bool * float)) : string :=
+  (fix go (bs : list (list (C o * V o))) (ats : list (list att)) (cs : list (float * C o * C o))
+          (vs : list (bool * float)) {struct bs} : string :=
+     match bs, ats, cs, vs with
+     | [], [], [], [] => ""
+     | b :: bs', a :: ats', (m, lo, hi) :: cs', (hv, v) :: vs' =>
+         match collapse_bin o b with
+         | None => "collapse-empty-bin"
+         | Some (_, mlo, mhi) =>
+             if negb (ceq lo mlo) then "collapse-low"
+             else if negb (ceq hi mhi) then "collapse-high"
+             else if negb (forallb (fun p => cleb o lo (fst p) && negb (cleb o hi (fst p))) b)
+             then "collapse-interval"
+             else if negb (Nat.eqb (List.length a) (List.length b)) then "attachment-bin-size"
+             else
+               let keep := filter (fun pa => negb (att_masked (snd pa))) (combine b a) in
+               let vals := map (fun pa => vout (snd (fst pa))) keep in
+               let vars := map (fun pa => att_var (snd pa)) keep in
+               let has := existsb att_hasvar a in
+               if negb (Bool.eqb hv has) then "collapse-variance-presence"
+               else match vals with
+                    | [] => if f_is_nan m then go bs' ats' cs' vs' else "collapse-mean-all-masked"
+                    | _ => if negb (mean_ok mtol vals m) then "collapse-mean"
+                           else if has && negb (var_ok mtol vars v) then "collapse-variance"
+                           else go bs' ats' cs' vs'
+                    end
+         end
+     | _, _, _, _ => "collapse-count"
+     end) mbins abins coll cvar.
+
 Definition check_plateau (xs : list (C o)) (ys : list float) (atol : float) (min_n : Z)
            (qsame : bool) (ob : pobs (C o)) : string :=
   if negb (forallb f_finite ys && f_finite atol && forallb cfin xs) then "non-finite-input"
@@ -127,11 +213,7 @@ Definition check_plateau (xs : list (C o)) (ys : list float) (atol : float) (min
     let mb := plateau_bins (flags o (vin atol) pts) min_n pts in
     let qb := map (map (fun p => (c2q (fst p), f2q0 (vout (snd p))))) mb in
     let '(must_raise, must_return) := guard_band eps (f2q0 atol) qb in
-    match ob with
-    | ObsErr cls =>
-        if negb (String.eqb cls "RuntimeError") then "impl-raises-" ++ cls
-        else if must_return then "raises-without-drift" else ""
-    | ObsBins bins coll =>
+    let bins_cmp (bins : list (list (C o * float))) (k : unit -> string) : string :=
         let s := same_bins (C o) ceq (map (map (fun p => (fst p, vout (snd p)))) mb) bins in
         if negb (String.eqb s "") then s
         else if must_raise then "returns-despite-drift"
@@ -140,7 +222,20 @@ Definition check_plateau (xs : list (C o)) (ys : list float) (atol : float) (min
             if qsame && negb (nat_list_eqb (sizes (plateau_bins (flags QO (f2q0 atol) qpts) min_n qpts))
                                            (sizes bins))
             then "exact-rational-structure"
-            else collapse_cmp mb coll
+            else k tt in
+    match ob with
+    | ObsErr cls =>
+        if negb (String.eqb cls "RuntimeError") then "impl-raises-" ++ cls
+        else if must_return then "raises-without-drift" else ""
+    | ObsBins bins coll => bins_cmp bins (fun _ => collapse_cmp mb coll)
+    | ObsAtt bins coll ain abins cvar =>
+        bins_cmp bins (fun _ =>
+          if negb (Nat.eqb (List.length ain) (List.length xs)) then "bad-case-attachments"
+          else
+            (* the same grouping applied to what travels with the points *)
+            let ab := plateau_bins (flags o (vin atol) pts) min_n ain in
+            let sa := same_att_bins ab abins in
+            if negb (String.eqb sa "") then sa else collapse_cmp_att mb ab coll cvar)
     end.
 
 (* collapse_plateaus alone, on bins given by their current content *)
